@@ -32,6 +32,7 @@ def label_tree(doc, table=None, start=1):
             if id(v) in table:
                 raise ValueError("document is not a tree")
             table[id(v)] = n
+            table.setdefault('__alive__', []).append(v)   # a labelled object is never freed: id() is never reused
             n += 1
             for x in (v.values() if isinstance(v, dict) else v):
                 go(x)
